@@ -1,7 +1,593 @@
-import Cherab.Model.Repository
+import Cherab.Lemmas.Repository
 
+/-!
+# C06 — rate repository: last write wins per key, other keys untouched, no stray files
+
+Property theorems about `Cherab.Repository` (Model/Repository.lean), for **every** table `T : Tables` that satisfies the
+decidable well-formedness predicate `T.wellFormed`, every history of calls, every input.  That the tables generated
+from /repo's current source are well-formed is the separate, `decide`d obligation of `Props/C06Table.lean`.
+
+Clauses of the property sentence → theorems
+* "every subsequent read of a key returns exactly the arrays most recently written for that key through the matching
+  add or update function, all other keys keep their previous content, a key never written raises RuntimeError"
+  → `refines_kv`, `last_write_wins`, `never_written_raises`, `getter_reads_kv`, `beam_cx_getter_reads_kv`,
+    `add_matches_update_of_tables`, `stored_arrays_are_inputs`
+* "keys are (family, symbol, charge[, donor/metastable][, transition])" → `paths_injective`, `keys_injective`
+* "transition levels compared by their lower-cased string form" → `transition_key_iff_lower_equal`
+  (needs: no `>` in the level strings — `transition_separator_collision` shows the hypothesis cannot be dropped)
+* "every file created lies under the repository path that was passed" → `writes_under_root`,
+  `dropped_root_escapes` (why `rootPassed` is needed)
+* "an update that is rejected for invalid data leaves previously stored keys readable" → `rejected_update_preserves`
+-/
 namespace Cherab.Props.C06
 open Cherab.Repository
 
-theorem placeholder : (alookup 1 ([] : List (Nat × Nat))) = none := rfl
+/-! ## histories -/
+
+inductive Op
+  | upd (u : UpdFn) (inp : UpdInput) (root : Option Path)
+  | add (a : AddFn) (args : List Arg) (items : List (List Arg × Rate)) (root : Option Path)
+  | ins (i : InstallFn) (inps : List UpdInput) (root : Option Path)
+
+def Op.root : Op → Option Path
+  | .upd _ _ r => r
+  | .add _ _ _ r => r
+  | .ins _ _ r => r
+
+/-- the model's execution of one call -/
+def Op.run (T : Tables) : Op → FS → Res
+  | .upd u inp r => update T u inp r
+  | .add a args items r => Repository.add T a args items r
+  | .ins i inps r => install T i inps r
+
+/-- a history: every call runs on the file system the previous one left (an exception aborts only its own call) -/
+def runOps (T : Tables) (ops : List Op) (fs : FS) : FS := ops.foldl (fun fs op => (op.run T fs).1) fs
+
+/-- point updates of a front-end: its `update_*` calls in order, up to the first rejected one -/
+def insPuts (T : Tables) : List (UpdFn × Bool) → List UpdInput → List (Key × Val) × Option Err
+  | (u, _) :: cs, inp :: inps =>
+    match (updPuts T u inp).2 with
+    | none => ((updPuts T u inp).1 ++ (insPuts T cs inps).1, (insPuts T cs inps).2)
+    | some e => ((updPuts T u inp).1, some e)
+  | _, _ => ([], none)
+
+/-- **the abstract specification** of one call on the key → value map: a list of point updates and an outcome, both
+computed from the call's arguments alone.  `add_y` is the update of the family it is named after. -/
+def Op.puts (T : Tables) : Op → List (Key × Val) × Option Err
+  | .upd u inp _ => updPuts T u inp
+  | .add a args items _ => updPuts T a.own (a.wrap T args items)
+  | .ins i inps _ => insPuts T (T.installCalls i) inps
+
+def specRun (T : Tables) (ops : List Op) (m : KV) : KV := ops.foldl (fun m op => applyPuts (op.puts T).1 m) m
+
+def insTyped : List (UpdFn × Bool) → List UpdInput → Prop
+  | (u, _) :: cs, inp :: inps => InputTyped u inp ∧ insTyped cs inps
+  | _, _ => True
+
+/-- key parts are of the right type (integer charges/metastables, class strings, transition pairs); rate data, species
+validity and charge ranges are arbitrary -/
+def Op.Typed (T : Tables) : Op → Prop
+  | .upd u inp _ => InputTyped u inp
+  | .add a args items _ => InputTyped a.own (a.wrap T args items)
+  | .ins i inps _ => insTyped (T.installCalls i) inps
+
+theorem wellFormed_iff (T : Tables) : T.wellFormed = true ↔
+    T.addMatches = true ∧ T.getMatches = true ∧ T.shapesOk = true ∧ T.disjointOk = true ∧ T.rootPassed = true := by
+  simp [Tables.wellFormed, Bool.and_eq_true, and_assoc]
+
+theorem installAll_refines (T : Tables) (hS : T.shapesOk = true) (hD : T.disjointOk = true) (root : Option Path)
+    (k : Key) (hk : k.ok = true) : ∀ (calls : List (UpdFn × Bool)) (inps : List UpdInput) (fs : FS),
+    insTyped calls inps →
+    (installAll T calls inps root fs).2 = (insPuts T calls inps).2 ∧
+    absView T (resolve root) (installAll T calls inps root fs).1.at k
+      = applyPuts (insPuts T calls inps).1 (absView T (resolve root) fs.at) k := by
+  intro calls
+  induction calls with
+  | nil => intro inps fs _; simp [installAll, insPuts, applyPuts]
+  | cons c cs ih =>
+    intro inps fs ht
+    obtain ⟨u, b⟩ := c
+    cases inps with
+    | nil => simp [installAll, insPuts, applyPuts]
+    | cons inp inps =>
+      obtain ⟨h1, h2⟩ := update_refines T hS hD u inp ht.1 root fs k hk
+      simp only [installAll, insPuts]
+      rcases hu : update T u inp root fs with ⟨fs', o⟩
+      rw [hu] at h1 h2
+      simp only at h1 h2
+      rw [← h1]
+      cases o with
+      | none =>
+        simp only []
+        obtain ⟨i1, i2⟩ := ih inps fs' ht.2
+        refine ⟨i1, ?_⟩
+        rw [i2, applyPuts_append]
+        exact applyPuts_congr _ _ _ _ h2
+      | some e => exact ⟨rfl, h2⟩
+
+/-- one call refines its specification -/
+theorem op_refines (T : Tables) (hW : T.wellFormed = true) (op : Op) (hT : op.Typed T) (fs : FS) (k : Key)
+    (hk : k.ok = true) :
+    (op.run T fs).2 = (op.puts T).2 ∧
+    absView T (resolve op.root) (op.run T fs).1.at k
+      = applyPuts (op.puts T).1 (absView T (resolve op.root) fs.at) k := by
+  obtain ⟨hA, _, hS, hD, hR⟩ := (wellFormed_iff T).mp hW
+  cases op with
+  | upd u inp r => exact update_refines T hS hD u inp hT r fs k hk
+  | add a args items r =>
+    simp only [Op.run, Op.puts, Op.root, add_eq_update T hA]
+    exact update_refines T hS hD a.own _ hT r fs k hk
+  | ins i inps r =>
+    simp only [Op.run, Op.puts, Op.root, install, installSeq_eq T r _ inps fs (rootPassed_of T hR i)]
+    exact installAll_refines T hS hD r k hk _ inps fs hT
+
+theorem specRun_congr (T : Tables) (ops : List Op) (m m' : KV) (k : Key) (h : m k = m' k) :
+    specRun T ops m k = specRun T ops m' k := by
+  induction ops generalizing m m' with
+  | nil => exact h
+  | cons op ops ih => exact ih _ _ (applyPuts_congr _ _ _ _ h)
+
+/-- **`refines_kv`** — for every history of add/update/install calls on the repository at `R`, the getters' view of the
+file system is the key → value map obtained by replaying the calls' point updates, in order, on the initial map.
+(Point updates ⇒ the last write to a key wins and every other key keeps its content.) -/
+theorem refines_kv (T : Tables) (hW : T.wellFormed = true) (R : Path) (ops : List Op)
+    (hT : ∀ op ∈ ops, op.Typed T ∧ resolve op.root = R) (fs : FS) (k : Key) (hk : k.ok = true) :
+    absView T R (runOps T ops fs).at k = specRun T ops (absView T R fs.at) k := by
+  induction ops generalizing fs with
+  | nil => rfl
+  | cons op ops ih =>
+    obtain ⟨ht, hr⟩ := hT op (List.mem_cons_self ..)
+    have := (op_refines T hW op ht fs k hk).2
+    rw [hr] at this
+    simp only [runOps, specRun, List.foldl_cons]
+    have ih' := ih (fun op' h => hT op' (List.mem_cons_of_mem _ h)) (op.run T fs).1
+    simp only [runOps, specRun] at ih'
+    rw [ih']
+    exact specRun_congr T ops _ _ k this
+
+/-- outcome (ok / which exception) of every call is the specification's -/
+theorem outcome_refines (T : Tables) (hW : T.wellFormed = true) (op : Op) (hT : op.Typed T) (fs : FS) :
+    (op.run T fs).2 = (op.puts T).2 :=
+  (op_refines T hW op hT fs ⟨.ionisation, [.sym ""], [.num 0]⟩ (by decide)).1
+
+/-- all point updates of a history, in order -/
+def allPuts (T : Tables) (ops : List Op) : List (Key × Val) := ops.flatMap fun op => (op.puts T).1
+
+theorem specRun_eq (T : Tables) (ops : List Op) (m : KV) : specRun T ops m = applyPuts (allPuts T ops) m := by
+  induction ops generalizing m with
+  | nil => rfl
+  | cons op ops ih =>
+    simp only [specRun, List.foldl_cons, allPuts, List.flatMap_cons, applyPuts_append]
+    exact ih _
+
+/-- **last write wins, other keys untouched**: after any history, a key holds the value of the last point update made
+to it, and the value it had initially if no call updated it -/
+theorem last_write_wins (T : Tables) (hW : T.wellFormed = true) (R : Path) (ops : List Op)
+    (hT : ∀ op ∈ ops, op.Typed T ∧ resolve op.root = R) (fs : FS) (k : Key) (hk : k.ok = true) :
+    absView T R (runOps T ops fs).at k =
+      match lastWrite (allPuts T ops) k with
+      | some v => some v
+      | none => absView T R fs.at k := by
+  rw [refines_kv T hW R ops hT fs k hk, specRun_eq, applyPuts_lastWrite]
+  cases lastWrite (allPuts T ops) k <;> rfl
+
+theorem absView_empty (T : Tables) (R : Path) (k : Key) : absView T R (FS.at []) k = none := by
+  unfold absView; cases k.loc T R <;> rfl
+
+/-- **a key never written raises RuntimeError**: starting from the empty repository, a key that no call updated has no
+value; the keyed getters then raise RuntimeError (`getter_reads_kv`) -/
+theorem never_written_raises (T : Tables) (hW : T.wellFormed = true) (R : Path) (ops : List Op)
+    (hT : ∀ op ∈ ops, op.Typed T ∧ resolve op.root = R) (k : Key) (hk : k.ok = true)
+    (hn : k ∉ (allPuts T ops).map Prod.fst) : absView T R (runOps T ops []).at k = none := by
+  rw [last_write_wins T hW R ops hT [] k hk, lastWrite_none_of_not_mem _ _ hn]
+  exact absView_empty T R k
+
+/-- the keyed getters (all but beam CX) return the map's value at the requested key — or RuntimeError if it has
+none, AttributeError if an argument has no `.symbol` -/
+theorem getter_reads_kv (T : Tables) (hW : T.wellFormed = true) (g : GetFn) (hg : g.own.getKind = .keyed)
+    (args : List Arg) (root : Option Path) (fs : FS) :
+    get T g args root fs =
+      match (getKey g args).loc T (resolve root) with
+      | none => .error .attributeError
+      | some _ =>
+        match absView T (resolve root) fs.at (getKey g args) with
+        | some v => .ok [(renderIKey (getKey g args).inner, v)]
+        | none => .error .runtimeError :=
+  get_keyed T ((wellFormed_iff T).mp hW).2.1 g hg args root fs
+
+/-- `get_beam_cx_rates` returns every stored metastable of the transition, and raises RuntimeError exactly when none
+is stored -/
+theorem beam_cx_getter_reads_kv (T : Tables) (hW : T.wellFormed = true) (g : GetFn) (hg : g.own.getKind = .prefixed)
+    (args : List Arg) (root : Option Path) (fs : FS) (l : Path × IKey)
+    (hl : (getKey g args).loc T (resolve root) = some l) :
+    (∀ r, get T g args root fs = .ok r → ∀ ik : IKey, ik.head? = l.2.head? → alookup ik r = fs.at l.1 ik) ∧
+    (get T g args root fs = .error .runtimeError ↔ ∀ ik : IKey, ik.head? = l.2.head? → fs.at l.1 ik = none) :=
+  get_prefixed T ((wellFormed_iff T).mp hW).2.1 g hg args root fs l hl
+
+/-- a call that is not rejected updates every key it addresses (and only those), with the validated rate passed for it -/
+theorem accepted_update_writes_all (T : Tables) (u : UpdFn) (inp : UpdInput) (h : (updPuts T u inp).2 = none) :
+    (updPuts T u inp).1.map Prod.fst = targets u inp ∧
+    ∀ kv ∈ (updPuts T u inp).1, ∃ e ∈ inp, ∃ it ∈ e.inner,
+      kv.1 = ⟨u, u.normArgs e.args, it.1.map Arg.norm⟩ ∧ u.validate it.2 = .ok kv.2 :=
+  ⟨updPuts_complete T u inp h, updPuts_sub T u inp⟩
+
+theorem field_ok {r : Rate} {n : String} {a : Arr} (h : field r n = .ok a) : alookup n r = some a := by
+  unfold field at h; split at h
+  · next h' => cases h; exact h'
+  · cases h
+
+theorem asFloat_ok {a b : Arr} (h : asFloat a = .ok b) : b = a := by
+  unfold asFloat at h; split at h
+  · cases h; rfl
+  · cases h
+
+theorem pairCheck_ok {r : Rate} {x y : String} {a b : Arr} (h : pairCheck r x y = .ok (a, b)) :
+    alookup x r = some a ∧ alookup y r = some b := by
+  unfold pairCheck at h
+  cases h1 : field r x with
+  | error e => rw [h1] at h; cases h
+  | ok a' =>
+    cases h2 : field r y with
+    | error e => rw [h1, h2] at h; cases h
+    | ok b' =>
+      rw [h1, h2] at h
+      simp only [bind, Except.bind, guardE] at h
+      split at h
+      · cases h
+      · split at h
+        · cases h
+        · split at h
+          · cases h
+          · cases h; exact ⟨field_ok h1, field_ok h2⟩
+
+/-- **bit for bit**: every array of a stored value is one of the arrays of the rate dictionary that was passed
+(validation only selects and renames — `'rates'` is stored as `'rate'` — it never recomputes) -/
+theorem stored_arrays_are_inputs (u : UpdFn) (r : Rate) (v : Val) (h : u.validate r = .ok v) :
+    ∀ na ∈ v, ∃ n, alookup n r = some na.2 := by
+  have bindE : ∀ {α β : Type} (x : Except Err α) (f : α → Except Err β) (b : β),
+      (x >>= f) = .ok b → ∃ a, x = .ok a ∧ f a = .ok b := by
+    intro α β x f b hb; cases x with
+    | error e => cases hb
+    | ok a => exact ⟨a, rfl, hb⟩
+  have guardK : ∀ {β : Type} (c : Bool) (e : Err) (f : Unit → Except Err β) (b : β),
+      (guardE c e >>= f) = .ok b → f () = .ok b := by
+    intro β c e f b hb; unfold guardE at hb; split at hb
+    · exact hb
+    · cases hb
+  cases u <;> simp only [UpdFn.validate] at h
+  all_goals first
+    | (unfold validateAdf11 at h
+       obtain ⟨te, h1, h⟩ := bindE _ _ _ h
+       obtain ⟨ne, h2, h⟩ := bindE _ _ _ h
+       obtain ⟨rt, h3, h⟩ := bindE _ _ _ h
+       have h := guardK _ _ _ _ (guardK _ _ _ _ (guardK _ _ _ _ h))
+       cases h
+       intro na hna
+       simp only [List.mem_cons, List.not_mem_nil, or_false] at hna
+       rcases hna with rfl | rfl | rfl
+       · exact ⟨_, field_ok h1⟩
+       · exact ⟨_, field_ok h2⟩
+       · exact ⟨_, field_ok h3⟩)
+    | (unfold validatePec at h
+       obtain ⟨ne, h1, h⟩ := bindE _ _ _ h
+       obtain ⟨te, h2, h⟩ := bindE _ _ _ h
+       obtain ⟨rt, h3, h⟩ := bindE _ _ _ h
+       have h := guardK _ _ _ _ (guardK _ _ _ _ (guardK _ _ _ _ h))
+       cases h
+       intro na hna
+       simp only [List.mem_cons, List.not_mem_nil, or_false] at hna
+       rcases hna with rfl | rfl | rfl
+       · exact ⟨_, field_ok h1⟩
+       · exact ⟨_, field_ok h2⟩
+       · exact ⟨_, field_ok h3⟩)
+    | (unfold validatePecThermalCx at h
+       obtain ⟨ne, h1, h⟩ := bindE _ _ _ h
+       obtain ⟨te, h2, h⟩ := bindE _ _ _ h
+       obtain ⟨td, h3, h⟩ := bindE _ _ _ h
+       obtain ⟨rt, h4, h⟩ := bindE _ _ _ h
+       have h := guardK _ _ _ _ (guardK _ _ _ _ (guardK _ _ _ _ (guardK _ _ _ _ h)))
+       cases h
+       intro na hna
+       simp only [List.mem_cons, List.not_mem_nil, or_false] at hna
+       rcases hna with rfl | rfl | rfl | rfl
+       · exact ⟨_, field_ok h1⟩
+       · exact ⟨_, field_ok h2⟩
+       · exact ⟨_, field_ok h3⟩
+       · exact ⟨_, field_ok h4⟩)
+    | (unfold validateWavelength at h
+       obtain ⟨w, h1, h⟩ := bindE _ _ _ h
+       obtain ⟨w', h2, h⟩ := bindE _ _ _ h
+       cases h
+       intro na hna
+       simp only [List.mem_cons, List.not_mem_nil, or_false] at hna
+       subst hna
+       exact ⟨_, (asFloat_ok h2) ▸ field_ok h1⟩)
+    | (unfold validateBeamCx at h
+       obtain ⟨q0, h0, h⟩ := bindE _ _ _ h
+       obtain ⟨q1, h0', h⟩ := bindE _ _ _ h
+       obtain ⟨⟨eb, qeb⟩, p1, h⟩ := bindE _ _ _ h
+       obtain ⟨⟨ti, qti⟩, p2, h⟩ := bindE _ _ _ h
+       obtain ⟨⟨ni, qni⟩, p3, h⟩ := bindE _ _ _ h
+       obtain ⟨⟨z, qz⟩, p4, h⟩ := bindE _ _ _ h
+       obtain ⟨⟨b, qb⟩, p5, h⟩ := bindE _ _ _ h
+       cases h
+       have e1 := pairCheck_ok p1
+       have e2 := pairCheck_ok p2
+       have e3 := pairCheck_ok p3
+       have e4 := pairCheck_ok p4
+       have e5 := pairCheck_ok p5
+       intro na hna
+       simp only [List.mem_cons, List.not_mem_nil, or_false] at hna
+       rcases hna with rfl | rfl | rfl | rfl | rfl | rfl | rfl | rfl | rfl | rfl | rfl
+       · exact ⟨_, e1.1⟩
+       · exact ⟨_, e2.1⟩
+       · exact ⟨_, e3.1⟩
+       · exact ⟨_, e4.1⟩
+       · exact ⟨_, e5.1⟩
+       · exact ⟨_, (asFloat_ok h0') ▸ field_ok h0⟩
+       · exact ⟨_, e1.2⟩
+       · exact ⟨_, e2.2⟩
+       · exact ⟨_, e3.2⟩
+       · exact ⟨_, e4.2⟩
+       · exact ⟨_, e5.2⟩)
+    | (unfold validateBeamRate at h
+       obtain ⟨e, h1, h⟩ := bindE _ _ _ h
+       obtain ⟨n, h2, h⟩ := bindE _ _ _ h
+       obtain ⟨t, h3, h⟩ := bindE _ _ _ h
+       obtain ⟨sen, h4, h⟩ := bindE _ _ _ h
+       obtain ⟨st, h5, h⟩ := bindE _ _ _ h
+       have h := guardK _ _ _ _ (guardK _ _ _ _ (guardK _ _ _ _ (guardK _ _ _ _ (guardK _ _ _ _ h))))
+       obtain ⟨eref, r1, h⟩ := bindE _ _ _ h
+       obtain ⟨nref, r2, h⟩ := bindE _ _ _ h
+       obtain ⟨tref, r3, h⟩ := bindE _ _ _ h
+       obtain ⟨sref, r4, h⟩ := bindE _ _ _ h
+       cases h
+       obtain ⟨x1, f1, g1⟩ := bindE _ _ _ r1
+       obtain ⟨x2, f2, g2⟩ := bindE _ _ _ r2
+       obtain ⟨x3, f3, g3⟩ := bindE _ _ _ r3
+       obtain ⟨x4, f4, g4⟩ := bindE _ _ _ r4
+       intro na hna
+       simp only [List.mem_cons, List.not_mem_nil, or_false] at hna
+       rcases hna with rfl | rfl | rfl | rfl | rfl | rfl | rfl | rfl | rfl
+       · exact ⟨_, field_ok h1⟩
+       · exact ⟨_, field_ok h2⟩
+       · exact ⟨_, field_ok h3⟩
+       · exact ⟨_, field_ok h4⟩
+       · exact ⟨_, field_ok h5⟩
+       · exact ⟨_, (asFloat_ok g1) ▸ field_ok f1⟩
+       · exact ⟨_, (asFloat_ok g2) ▸ field_ok f2⟩
+       · exact ⟨_, (asFloat_ok g3) ▸ field_ok f3⟩
+       · exact ⟨_, (asFloat_ok g4) ▸ field_ok f4⟩)
+
+/-! ## keys ↔ files -/
+
+/-- **`paths_injective`**: two well-kinded keys stored in the same file have the same family and the same
+file-selecting components (symbols up to case, charges, class) -/
+theorem paths_injective (T : Tables) (hW : T.wellFormed = true) (R : Path) (k k' : Key) (hk : k.ok = true)
+    (hk' : k'.ok = true) (p : Path) (i i' : IKey) (h : k.loc T R = some (p, i)) (h' : k'.loc T R = some (p, i')) :
+    k.fam = k'.fam ∧ k.args = k'.args :=
+  path_inj T ((wellFormed_iff T).mp hW).2.2.1 ((wellFormed_iff T).mp hW).2.2.2.1 R k k' hk hk' p i i' h h'
+
+/-- distinct well-kinded keys never share a (file, inner key) location -/
+theorem keys_injective (T : Tables) (hW : T.wellFormed = true) (R : Path) (k k' : Key) (hk : k.ok = true)
+    (hk' : k'.ok = true) (l : Path × IKey) (h : k.loc T R = some l) (h' : k'.loc T R = some l) : k = k' :=
+  loc_inj T ((wellFormed_iff T).mp hW).2.2.1 ((wellFormed_iff T).mp hW).2.2.2.1 R k k' hk hk' l h h'
+
+/-- **`transition_key_iff_lower_equal`**: two transitions have the same key iff their levels agree after `str()` and
+lower-casing — provided the (lower-cased) upper levels do not contain `>` -/
+theorem transition_key_iff_lower_equal (u l u' l' : Level) (h : '>' ∉ (lower u.render).toList)
+    (h' : '>' ∉ (lower u'.render).toList) :
+    encodeTransition u l = encodeTransition u' l' ↔
+      lower u.render = lower u'.render ∧ lower l.render = lower l'.render := by
+  constructor
+  · exact join_inj _ _ _ _ h h'
+  · rintro ⟨e1, e2⟩; unfold encodeTransition; rw [e1, e2]
+
+theorem lower_lit1 : lower "a -> b" = "a -> b" := by
+  apply String.toList_injective; simp [lower, String.toLower, String.toList_map]
+theorem lower_lit2 : lower "c" = "c" := by
+  apply String.toList_injective; simp [lower, String.toLower, String.toList_map]
+theorem lower_lit3 : lower "a" = "a" := by
+  apply String.toList_injective; simp [lower, String.toLower, String.toList_map]
+theorem lower_lit4 : lower "b -> c" = "b -> c" := by
+  apply String.toList_injective; simp [lower, String.toLower, String.toList_map]
+
+/-- the hypothesis of `transition_key_iff_lower_equal` cannot be dropped: the model (like
+`utility.encode_transition`) gives `('a -> b', 'c')` and `('a', 'b -> c')` the same key -/
+theorem transition_separator_collision :
+    encodeTransition (.str "a -> b") (.str "c") = encodeTransition (.str "a") (.str "b -> c") ∧
+    ¬ (lower (Level.str "a -> b").render = lower (Level.str "a").render) := by
+  simp only [encodeTransition, Level.render, lower_lit1, lower_lit2, lower_lit3, lower_lit4]
+  decide
+
+/-! ## rejected updates -/
+
+/-- **`rejected_update_preserves`**: whatever a call does — accepted, or rejected at any point for invalid data —
+(1) its outcome and effect are those of its specification, a sub-list of the point updates of the keys it addresses;
+(2) a key it does not address keeps its value; (3) every key that was readable stays readable. -/
+theorem rejected_update_preserves (T : Tables) (hW : T.wellFormed = true) (u : UpdFn) (inp : UpdInput)
+    (hT : InputTyped u inp) (root : Option Path) (fs : FS) (k : Key) (hk : k.ok = true) :
+    (k ∉ targets u inp →
+      absView T (resolve root) (update T u inp root fs).1.at k = absView T (resolve root) fs.at k) ∧
+    ((absView T (resolve root) fs.at k).isSome = true →
+      (absView T (resolve root) (update T u inp root fs).1.at k).isSome = true) := by
+  obtain ⟨_, _, hS, hD, _⟩ := (wellFormed_iff T).mp hW
+  have h := (update_refines T hS hD u inp hT root fs k hk).2
+  constructor
+  · intro hn
+    rw [h]
+    exact applyPuts_not_mem _ _ _ (fun hm => hn (updPuts_keys_sub T u inp k hm))
+  · intro hs
+    rw [h]
+    exact applyPuts_isSome _ _ _ hs
+
+/-! ## files -/
+
+/-- **`writes_under_root`**: no call creates, modifies or removes a file that is not under the repository path it was
+given — for `update_*` and `add_*` unconditionally, for the `install_*` front-ends when the tables say that every
+`repository.update_*` call receives `repository_path` -/
+theorem writes_under_root (T : Tables) (op : Op) (hR : ∀ i inps r, op = .ins i inps r → ∀ c ∈ T.installCalls i, c.2 = true)
+    (fs : FS) (p : Path) (hp : ¬ resolve op.root <+: p) : (op.run T fs).1.read p = fs.read p := by
+  cases op with
+  | upd u inp r => exact update_read T u inp r fs p hp
+  | add a args items r => exact add_read T a args items r fs p hp
+  | ins i inps r => exact installSeq_read T r p hp _ inps fs (hR i inps r rfl)
+
+theorem writes_under_root_of_tables (T : Tables) (hW : T.wellFormed = true) (op : Op) (fs : FS) (p : Path)
+    (hp : ¬ resolve op.root <+: p) : (op.run T fs).1.read p = fs.read p :=
+  writes_under_root T op (fun i _ _ _ => rootPassed_of T ((wellFormed_iff T).mp hW).2.2.2.2 i) fs p hp
+
+/-- **`add_matches_update`** (generic half): with well-formed tables `add_y(args…, rate, root)` is
+`update_<family of y>` applied to the one-entry dictionary `wrap` builds, with the class string `y` is named after -/
+theorem add_matches_update_of_tables (T : Tables) (hW : T.wellFormed = true) (a : AddFn) (args : List Arg)
+    (items : List (List Arg × Rate)) (root : Option Path) (fs : FS) :
+    add T a args items root fs = update T a.own (a.wrap T args items) root fs ∧ (a.wrap T args items).length ≤ 1 ∧
+    T.addFixed a = a.ownFixed := by
+  have hA := ((wellFormed_iff T).mp hW).1
+  refine ⟨add_eq_update T hA a args items root fs, ?_, (addMatches_of T hA a).2.2⟩
+  unfold AddFn.wrap; split <;> simp
+
+/-! ## why the table conditions are needed (constructive counter-examples), non-vacuity -/
+
+/-- if the tables route `add_y` into the code and file of another family `u' ≠ own y` (as `add_continuum_power_rate`
+→ `update_line_power_rates` does), the call changes **no** key of its own family: the getter named after it never
+sees what was added -/
+theorem misrouted_add_never_updates_own_family (T : Tables) (hS : T.shapesOk = true) (hD : T.disjointOk = true)
+    (a : AddFn) (u' : UpdFn) (h1 : T.famOfAdd a = u') (h2 : T.tmplOfAdd a = T.tmplOfUpd u') (hne : u' ≠ a.own)
+    (args : List Arg) (items : List (List Arg × Rate)) (hT : InputTyped u' (a.wrap T args items))
+    (root : Option Path) (fs : FS) (k : Key) (hk : k.ok = true) (hf : k.fam = a.own) :
+    absView T (resolve root) (add T a args items root fs).1.at k = absView T (resolve root) fs.at k := by
+  have e : add T a args items root fs = update T u' (a.wrap T args items) root fs := by
+    unfold add update; rw [h1, h2]
+  rw [e, (update_refines T hS hD u' _ hT root fs k hk).2]
+  apply applyPuts_not_mem
+  intro hm
+  simp only [List.mem_map] at hm
+  obtain ⟨kv, hkv, rfl⟩ := hm
+  obtain ⟨_, _, _, _, h3, _⟩ := updPuts_sub T u' _ kv hkv
+  rw [h3] at hf
+  exact hne hf
+
+/-- a front-end whose table entry drops `repository_path` (as `install_adf15` does for thermal-CX PECs) runs that
+update on the *default* repository: the repository that was passed receives nothing from it -/
+theorem dropped_root_escapes (T : Tables) (u : UpdFn) (inp : UpdInput) (R : Path) (fs : FS) :
+    installSeq T [(u, false)] [inp] (some R) fs = update T u inp none fs ∧
+    ∀ p, ¬ defaultRoot <+: p → (installSeq T [(u, false)] [inp] (some R) fs).1.read p = fs.read p := by
+  have e : installSeq T [(u, false)] [inp] (some R) fs = update T u inp none fs := by
+    simp only [installSeq, Bool.false_eq_true, if_false]
+    rcases update T u inp none fs with ⟨fs', o⟩
+    cases o <;> rfl
+  refine ⟨e, fun p hp => ?_⟩
+  rw [e]; exact update_read T u inp none fs p hp
+
+/-- the tables a source without the two routing slips yields -/
+def idealTables : Tables where
+  updWrites
+    | .ionisation => some ⟨["ionisation"], [.symLower], ".json"⟩
+    | .recombination => some ⟨["recombination"], [.symLower], ".json"⟩
+    | .thermalCx => some ⟨["thermal_cx"], [.symLower, .raw, .symLower], ".json"⟩
+    | .linePower => some ⟨["radiated_power", "line"], [.symLower], ".json"⟩
+    | .continuumPower => some ⟨["radiated_power", "continuum"], [.symLower], ".json"⟩
+    | .cxPower => some ⟨["radiated_power", "cx"], [.symLower], ".json"⟩
+    | .pec => some ⟨["pec"], [.raw, .symLower, .raw], ".json"⟩
+    | .pecThermalCx => some ⟨["pec", "thermal_cx"], [.symLower, .raw, .symLower, .raw], ".json"⟩
+    | .wavelength => some ⟨["wavelength"], [.symLower, .raw], ".json"⟩
+    | .beamCx => some ⟨["beam", "cx"], [.symLower, .symLower, .raw], ".json"⟩
+    | .beamEmission => some ⟨["beam", "emission"], [.symLower, .symLower, .raw], ".json"⟩
+    | _ => none
+  updCalls
+    | .beamStopping => some .beamStopping
+    | .beamPopulation => some .beamPopulation
+    | _ => none
+  addWrites
+    | .beamStopping => some ⟨["beam", "stopping"], [.symLower, .symLower, .raw], ".json"⟩
+    | .beamPopulation => some ⟨["beam", "population"], [.symLower, .raw, .symLower, .raw], ".json"⟩
+    | _ => none
+  addCalls
+    | .beamStopping => none
+    | .beamPopulation => none
+    | a => some a.own
+  addFixed := AddFn.ownFixed
+  getReads
+    | .beamStopping => some ⟨["beam", "stopping"], [.symLower, .symLower, .raw], ".json"⟩
+    | .beamPopulation => some ⟨["beam", "population"], [.symLower, .raw, .symLower, .raw], ".json"⟩
+    | .ionisation => some ⟨["ionisation"], [.symLower], ".json"⟩
+    | .recombination => some ⟨["recombination"], [.symLower], ".json"⟩
+    | .thermalCx => some ⟨["thermal_cx"], [.symLower, .raw, .symLower], ".json"⟩
+    | .linePower => some ⟨["radiated_power", "line"], [.symLower], ".json"⟩
+    | .continuumPower => some ⟨["radiated_power", "continuum"], [.symLower], ".json"⟩
+    | .cxPower => some ⟨["radiated_power", "cx"], [.symLower], ".json"⟩
+    | .pecExcitation => some ⟨["pec"], [.raw, .symLower, .raw], ".json"⟩
+    | .pecRecombination => some ⟨["pec"], [.raw, .symLower, .raw], ".json"⟩
+    | .pecThermalCx => some ⟨["pec", "thermal_cx"], [.symLower, .raw, .symLower, .raw], ".json"⟩
+    | .wavelength => some ⟨["wavelength"], [.symLower, .raw], ".json"⟩
+    | .beamCx => some ⟨["beam", "cx"], [.symLower, .symLower, .raw], ".json"⟩
+    | .beamEmission => some ⟨["beam", "emission"], [.symLower, .symLower, .raw], ".json"⟩
+  getFixed := GetFn.ownFixed
+  installCalls
+    | .adf11scd => [(.ionisation, true)]
+    | .adf11acd => [(.recombination, true)]
+    | .adf11ccd => [(.thermalCx, true)]
+    | .adf11plt => [(.linePower, true)]
+    | .adf11prb => [(.continuumPower, true)]
+    | .adf11prc => [(.cxPower, true)]
+    | .adf12 => [(.beamCx, true)]
+    | .adf15 => [(.pecThermalCx, true), (.pec, true), (.wavelength, true)]
+    | .adf21 => [(.beamStopping, true)]
+    | .adf22bmp => [(.beamPopulation, true)]
+    | .adf22bme => [(.beamEmission, true)]
+  frontCalls := [("install_files", "install_adf15", true)]
+
+/-- the hypothesis `T.wellFormed` of all theorems above is satisfiable -/
+theorem idealTables_wellFormed : idealTables.wellFormed = true := by decide
+
+/-- the tables of the source as it is today, in the one respect that matters for `add_continuum_power_rate` -/
+def misroutedTables : Tables :=
+  { idealTables with addCalls := fun a => if a = .continuumPower then some .linePower else idealTables.addCalls a }
+
+example : misroutedTables.addMatches = false ∧ misroutedTables.shapesOk = true ∧ misroutedTables.disjointOk = true ∧
+    misroutedTables.famOfAdd .continuumPower = .linePower ∧
+    misroutedTables.tmplOfAdd .continuumPower = misroutedTables.tmplOfUpd .linePower := by decide
+
+-- non-vacuity: well-kinded keys, typed inputs and histories satisfying the hypotheses of `refines_kv` exist
+example : (Key.mk .ionisation [.sym "c"] [.num 2]).ok = true := by decide
+example : (Key.mk .beamCx [.sym "d", .sym "c", .num 6] [.tr "8 -> 7", .num 1]).ok = true := by decide
+example (r : Rate) : InputTyped .continuumPower [⟨[.sp ⟨true, "C", 6⟩], [([.num 2], r)]⟩] := by
+  intro e he
+  simp only [List.mem_singleton] at he
+  subst he
+  refine ⟨by rfl, ?_⟩
+  intro it hit
+  simp only [List.mem_singleton] at hit
+  subst hit
+  rfl
+
+/-- on the ideal tables: whatever was stored before, after `add_continuum_power_rate(C, 2, r)` with an accepted `r`
+the key (continuum, c, 2) holds the validated `r` (read-your-write, an instance of `refines_kv`) -/
+example (r : Rate) (v : Val) (hv : validateAdf11 r = .ok v) (R : Path) (fs : FS) :
+    absView idealTables R
+      (runOps idealTables [.add .continuumPower [.sp ⟨true, "C", 6⟩, .num 2] [([], r)] (some R)] fs).at
+      ⟨.continuumPower, [.sym (lower "C")], [.num 2]⟩ = some v := by
+  have hT : ∀ op ∈ [Op.add .continuumPower [.sp ⟨true, "C", 6⟩, .num 2] [([], r)] (some R)],
+      op.Typed idealTables ∧ resolve op.root = R := by
+    intro op hop
+    simp only [List.mem_singleton] at hop
+    subst hop
+    refine ⟨?_, rfl⟩
+    intro e he
+    simp only [AddFn.wrap, List.mem_singleton] at he
+    subst he
+    refine ⟨by rfl, ?_⟩
+    intro it hit
+    simp only [List.mem_singleton] at hit
+    subst hit
+    rfl
+  rw [refines_kv idealTables idealTables_wellFormed R _ hT fs _ (by decide)]
+  have hp : (Op.puts idealTables (.add .continuumPower [.sp ⟨true, "C", 6⟩, .num 2] [([], r)] (some R))).1
+      = [(⟨.continuumPower, [.sym (lower "C")], [.num 2]⟩, v)] := by
+    simp [Op.puts, AddFn.wrap, AddFn.own, updPuts, seqPuts, entryPuts, UpdFn.precheck, isElem, Tables.tmplOfUpd,
+      idealTables, Template.inst, renderSlots, renderSlot, UpdFn.normArgs, Arg.norm, UpdFn.pattern, prefixKV, itemKV,
+      UpdFn.innerCheck, chargeOk, UpdFn.validate, hv, keyed]
+  simp [specRun, hp, applyPuts, putKV]
+
 end Cherab.Props.C06
